@@ -47,6 +47,8 @@ pub(crate) static mut BUDGET: usize = usize::MAX;
 pub(crate) static mut MAY_FAIL: bool = false;
 /// extra bytes granted on top of the request (0 = exact)
 pub(crate) static mut OVERGRANT: usize = 0;
+/// over-grant to use for the next `Arena::build` (log_reset clears OVERGRANT itself)
+pub(crate) static mut PENDING_OVERGRANT: usize = 0;
 
 pub(crate) fn log_reset() {
     unsafe {
@@ -243,8 +245,17 @@ where
         }
     }
 
+    /// Same with a base allocator that grants `over` bytes more than requested for every chunk.
+    pub(crate) fn build_over(k: usize, hint: usize, over: usize) -> Self {
+        unsafe { PENDING_OVERGRANT = over };
+        let a = Self::build(k, hint);
+        unsafe { PENDING_OVERGRANT = 0 };
+        a
+    }
+
     fn build_c<const H: usize>(k: usize) -> Self {
         log_reset();
+        unsafe { OVERGRANT = PENDING_OVERGRANT };
         let c0 = NonDummyChunk::<A, S>::new::<AllocError>(Sizes::<A, S, H>::S0, None, A::default()).unwrap();
         let mut chunks = [Some(c0), None, None];
         if k >= 2 {
